@@ -287,7 +287,9 @@ def rgb_to_oklch_safe(rgb: Tuple[int, int, int]) -> Tuple[float, float, float]:
         # Fallback to grayscale conversion if color conversion fails
         r, g, b = rgb
         gray = 0.299 * r + 0.587 * g + 0.114 * b
-        gray_normalized = gray / 255.0
+        # the input may be out of range (that is one reason to end up here): keep the
+        # fallback lightness inside [0, 1] so the result is still a valid OKLCH triple
+        gray_normalized = max(0.0, min(1.0, gray / 255.0))
         return (gray_normalized, 0.0, 0.0)  # Achromatic color
 
 
